@@ -601,6 +601,10 @@ func (x *Exec) makeIface(st *State, ifaceT types.Type, v Value, dynT types.Type)
 	}
 	st.assume(mkCmp(">", b, tZero))
 	st.assume(mkEq(app("dyntype", sInt, b), x.typeID(dynT)))
+	if st.boxed == nil {
+		st.boxed = map[string]Value{}
+	}
+	st.boxed[b.S] = Value{T: dynT, L: v.L, P: v.P}
 	return scalar(ifaceT, b)
 }
 
